@@ -244,14 +244,37 @@ def run(model, tier):
         'makes the piece undecided) and the residuals of the mass, momentum and energy equations in geometry k (with the '
         'documented diffusion flux where the solution has one) must reduce to 0 as rational functions with canonical '
         'parameter-dependent exponents: the equations then hold for all points, times, geometries and parameter values. '
-        'Numerically integrated solutions (Sedov, Guderley, general-EOS fans, EHEP region assembly) are not decided.')
+        'Also decided here: the ideal-gas rarefaction-fan formulas of the 1D Riemann solver satisfy the Euler equations in (x, t), '
+        'every fan of both 1D solvers uses the sound speed of its own state, and the Sedov interior (similarity functions in '
+        'parametric form, standard / omega2 / omega3 branches) satisfies the Euler equations in geometry j (the C04 / C11 rules). '
+        'Numerically integrated solutions (Guderley, general-EOS fans) and the EHEP region assembly are not decided.')
     res.rule_text = 'instance = one conservation equation on one smooth piece of one solver'
     res.trusted_base = ['CPython ast', 'sympy expand / FracField', 'value-graph builder', 'spec/pde_scope.json']
     spec = load_spec('pde_scope.json')
     stats = {'undecided': []}
-    for cname, opts in spec['classes'].items():
-        check_class(model, cname, opts, res, stats)
-    res.extra['undecided_pieces'] = stats['undecided']
+
+    def closed_forms(part):
+        for cname, opts in spec['classes'].items():
+            check_class(model, cname, opts, part, stats)
+        part.extra['undecided_pieces'] = stats['undecided']
+
+    def riemann(part):
+        # the ideal-gas fan formulas (both sides) satisfy the Euler equations in (x, t); every fan of both 1D solvers is
+        # placed with u -+ a of ONE state (a fan placed with the sound speed of another state is not a simple wave)
+        from . import c04, c09
+        c04.fans(model, part, only_pde=True)
+        c09.side_consistency(model, part, prop=PROP, rule='C01.side-consistency',
+                             callees=('sound_speed', 'rho_p_u_rarefaction', 'rho_star_rarefaction', 'rarefaction'), min_calls=8,
+                             why='the fan is then not a centred simple wave of its own state and violates the Euler equations')
+
+    from . import c11
+    from ..par import run_parallel
+    tasks = [(closed_forms, ()), (riemann, ())] + c11.interior_pde_tasks(model)
+    run_parallel(tasks, res)
+    for f in res.findings:
+        if f.prop != PROP:
+            f.prop = PROP
+            f.rule = 'C01.' + f.rule.split('.', 1)[1]
     if res.obligations < spec.get('min_obligations', 1):
         raise AnalysisError('only %d PDE obligations (confirmed: %d)' % (res.obligations, spec.get('min_obligations')))
     return res
